@@ -45,6 +45,14 @@ ID_CATALOGUE += [b'#..meta: length=3, a=1, a=2', b'#..meta: length=9, length=3',
 ID_CATALOGUE += [b'#..meta: length=3, a' + bytes([_b]) + b'=1' for _b in range(128, 256, 3)]
 ID_CATALOGUE += [b'#..meta: length=3, a=b' + bytes([_b]) for _b in range(128, 256)]
 ID_CATALOGUE += [b'#..meta: length=3, a=' + bytes([_b]) + b'b' for _b in range(129, 256, 5)]
+# every ASCII punctuation / control character in key and in value position, and printf-style fragments
+_PUNCT = [_b for _b in range(0, 128) if not (48 <= _b <= 57 or 65 <= _b <= 90 or 97 <= _b <= 122) and _b not in (10,)]
+ID_CATALOGUE += [b'#..meta: length=3, a' + bytes([_b]) + b'=1' for _b in _PUNCT]
+ID_CATALOGUE += [b'#..meta: length=3, a=b' + bytes([_b]) for _b in _PUNCT]
+ID_CATALOGUE += [b'#..meta: length=3, a=' + bytes([_b]) + b'b' for _b in _PUNCT]
+ID_CATALOGUE += [b'#..meta: length=3, a=100%', b'#..meta: length=3, a=%d', b'#..meta: length=3, a=%(x)s', b'#..meta: %s=1, length=3',
+                 b'#..meta: 50% done', b'#..meta: length=3, a=%s%s', b'#..meta: length=3, a={0}', b'#..meta: length=3, a=\\n',
+                 b'#..meta: length=%d', b'#..meta%s: length=3', b'#..meta: length=3, %(line_num)s=1']
 
 
 def file_for(s, which=1):
